@@ -867,6 +867,11 @@ func (c *Ctx) checkHashable(r *Report) {
 			"Hashable switches on the tag of a value derived from its argument (e.g. Value(o)), so a reference to a hashable value is accepted; Cache.Get/Set store the argument itself in the key, and a key holding a reference (name + environment) stays equal while the variable changes: stale results")
 	}
 	// tags on whose equality edge the function returns the constant true directly
+	floatOutright := ""
+	defer func() {
+		r.Check(floatOutright == "", "C04.R4", fname, "equal float keys are equal arguments", c.Pos(fn.Pos()),
+			"Hashable accepts every float outright ("+floatOutright+"): 0.0 and -0.0 are the same Go map key, so f(-0.0) is answered with the result memoised for f(0.0) (func f(x){1/x}: +Inf twice)")
+	}()
 	for _, b := range fn.Blocks {
 		ret, ok := b.Instrs[len(b.Instrs)-1].(*ssa.Return)
 		if !ok || len(ret.Results) != 1 {
@@ -895,6 +900,12 @@ func (c *Ctx) checkHashable(r *Report) {
 				continue
 			}
 			tn := names[tag]
+			// a float key: Go's map equality makes 0.0 and -0.0 one key although they are different arguments (1/x),
+			// so FLOAT cannot be accepted without looking at the value
+			if tn == "FLOAT" {
+				floatOutright = c.Pos(ifi.Pos())
+				continue
+			}
 			r.Check(tn != "REFERENCE", "C04.R4", fname, fmt.Sprintf("tag %s accepted outright is not an alias", tn), c.Pos(ifi.Pos()),
 				"Hashable accepts references: a reference compares by (name, environment), not by the value it currently denotes, so a memoised call keyed on it returns a stale result after the variable is assigned (and the possibly-Reference arguments stored in the cache key are accepted by C06.R4 on the strength of this test)")
 			for _, ct := range tagTypes[tag] {
